@@ -63,8 +63,11 @@ Fixpoint imp_aux (first : bool) (m0 m_n sm : R) (tl Ms : list R) (rng : list (R 
 Definition importance (m0 a0 : R) (tl Ms : list R) : R :=
   imp_aux true m0 a0 (sm0 tl) tl Ms (mass_ranges m0 a0 tl).
 
-Definition weight_raw (m0 a0 : R) (tl Ms : list R) : R := rprod (q_list a0 (Ms ++ [m0]) tl) / wt_max m0 a0 tl.
-Definition weight (m0 a0 : R) (tl Ms : list R) : R := importance m0 a0 tl Ms * weight_raw m0 a0 tl Ms.
+(* with the stored m_wtMax as a parameter (the code divides by the stored attribute) *)
+Definition weight_raw_w (wmax m0 a0 : R) (tl Ms : list R) : R := rprod (q_list a0 (Ms ++ [m0]) tl) / wmax.
+Definition weight_w (wmax m0 a0 : R) (tl Ms : list R) : R := importance m0 a0 tl Ms * weight_raw_w wmax m0 a0 tl Ms.
+Definition weight_raw (m0 a0 : R) (tl Ms : list R) : R := weight_raw_w (wt_max m0 a0 tl) m0 a0 tl Ms.
+Definition weight (m0 a0 : R) (tl Ms : list R) : R := weight_w (wt_max m0 a0 tl) m0 a0 tl Ms.
 
 (* generate_momentum_i :151-174 *)
 Definition two_body_p (m0 m1 m2 ct phi : R) : vec4 :=
@@ -103,3 +106,61 @@ Fixpoint ladder_valid (prev : R) (ladder tl : list R) : Prop :=
   | [], [] => True
   | _, _ => False
   end.
+
+(* ------------------------------------------------------------------ predicates and auxiliary quantities used by the theorems *)
+(* conditions on the boosts actually applied (steps after the first): parent of the step not massless and the
+   recoil velocity outside the gamma2 guard of LorentzVector.boost *)
+Fixpoint boosts_ok (prev : R) (ladder tl : list R) : Prop :=
+  match ladder, tl with
+  | M :: ladder', a :: tl' =>
+      0 < prev /\ eps < get_p M prev a * get_p M prev a / (get_p M prev a * get_p M prev a + prev * prev) /\ boosts_ok M ladder' tl'
+  | _, _ => True
+  end.
+
+Definition sq (x : R) : R := x * x.
+
+Fixpoint upper_ok (emmax : R) (ladder tl : list R) : Prop :=
+  match ladder, tl with
+  | M :: ladder', a :: tl' => M <= emmax + a /\ upper_ok (emmax + a) ladder' tl'
+  | _, _ => True
+  end.
+
+(* the sampled ladder respects its conditional ranges [a_i, b_i] (what generate_mass produces for 0 <= u <= 1)
+   and the unconditional ranges [amin_i, b_i] are non-degenerate *)
+Fixpoint ranges_respected (m0 m_n mlow sm : R) (tl Ms : list R) : Prop :=
+  match tl, Ms with
+  | a1 :: ((a2 :: _) as rest), M :: Ms' =>
+      m_n + a1 <= m0 - sm /\ mlow + a1 < m0 - sm /\ m_n + a1 <= M /\ ranges_respected m0 M (mlow + a1) (sm - a2) rest Ms'
+  | _, _ => True
+  end.
+
+Fixpoint density_aux (m0 m_n sm : R) (tl Ms : list R) : R :=
+  match tl, Ms with
+  | a1 :: ((a2 :: _) as rest), M :: Ms' => / (m0 - sm - (m_n + a1)) * density_aux m0 M (sm - a2) rest Ms'
+  | _, _ => 1
+  end.
+
+Fixpoint cprod (m0 sm : R) (tl : list R) (rng : list (R * R)) : R :=
+  match tl, rng with
+  | a1 :: ((a2 :: _) as rest), (amin, _) :: rng' => / (m0 - sm - amin) * cprod m0 (sm - a2) rest rng'
+  | _, _ => 1
+  end.
+
+Fixpoint ladder_inside (m0 m_n sm : R) (tl Ms : list R) : Prop :=
+  match tl, Ms with
+  | a1 :: ((a2 :: _) as rest), M :: Ms' => m_n + a1 < m0 - sm /\ ladder_inside m0 M (sm - a2) rest Ms'
+  | _, _ => True
+  end.
+
+(* proposal density of the sampled ladder x importance factor = a constant of the mass set *)
+Definition proposal_density (m0 a0 : R) (tl Ms : list R) : R := density_aux m0 a0 (sm0 tl) tl Ms.
+
+Definition lips_const (m0 a0 : R) (tl : list R) : R :=
+  match tl with
+  | a1 :: ((a2 :: _) as rest) =>
+      match mass_ranges m0 a0 tl with
+      | _ :: rng' => / (m0 - sm0 tl - (a0 + a1)) * cprod m0 (sm0 tl - a2) rest rng'
+      | [] => 1
+      end
+  | _ => 1
+  end / wt_max m0 a0 tl.
